@@ -1185,6 +1185,11 @@ func (x *Exec) countEvent(st *State, e Event) {
 	if !x.eng.eventKinds[e.Kind] {
 		return
 	}
+	{
+		name := "ghost.evn:" + e.Kind
+		arr := st.heapGet(name, ArrSort(SInt))
+		st.heapSetAt(name, Store(arr, TZero, Add(Select(arr, TZero), IntLit(1))), nil)
+	}
 	for _, a := range e.Args {
 		if a.Dyn == nil || a.Inner == nil {
 			continue
